@@ -65,6 +65,81 @@ def c_function_bodies(text: str, name: str) -> Dict[str, Dict[str, List[str]]]:
     return out
 
 
+def be_build_lines(text: str, name: str, fn: str = "Encode") -> Optional[List[str]]:
+    """the statements of Encode<name> a compiler sees when BP_BIG_ENDIAN is defined, in order"""
+    m = re.search(r"^int " + fn + re.escape(name) + r"\(struct " + re.escape(name) + r" \*m, unsigned char \*s\) \{\n(.*?)    return 0;\n\}", text, re.S | re.M)
+    if not m:
+        return None
+    out, skip = [], False
+    for l in (x.strip() for x in m.group(1).split("\n")):
+        if l == "#ifndef BP_BIG_ENDIAN":
+            skip = True
+        elif l == "#ifdef BP_BIG_ENDIAN":
+            skip = False
+        elif l == "#else":
+            skip = not skip
+        elif l == "#endif":
+            skip = False
+        elif l.startswith("#"):
+            return None  # a directive this reader does not know: no verdict
+        elif l and not skip:
+            out.append(l)
+    return out
+
+
+UTYPE_BITS = {"unsigned char": 8, "uint8_t": 8, "uint16_t": 16, "unsigned short": 16, "uint32_t": 32, "unsigned int": 32, "unsigned": 32,
+              "uint64_t": 64, "unsigned long long": 64}
+
+
+def encode_on_big_endian_memory(lines: List[str], leaves: List[Tuple[str, Any]], flat: List[int], nbytes: int) -> Optional[bytes]:
+    """what the given Encode statements write when the struct lies in BIG-endian memory (this host cannot run that, the statement
+    subset is small enough to evaluate): byte-pointer items read byte `fi` of the cell = bits 8*(size-1-fi)… of the stored value,
+    value items `(utype)(field) >> k` do not depend on the byte order.  None = a statement outside the subset (no verdict)."""
+    from .props_c import storage_size
+
+    cells: Dict[str, Tuple[int, int]] = {}
+    for (path, t), v in zip(leaves, flat):
+        n = 1 if isinstance(t, G.TBool) else 8 if isinstance(t, G.TByte) else t.n if isinstance(t, (G.TUint, G.TInt)) else t.d.nbits
+        size = 1 if isinstance(t, G.TBool) else storage_size(n)
+        cells[path] = (int(v) & ((1 << (8 * size)) - 1), size)
+    out = [0] * nbytes
+    for l in lines:
+        m = RE["c_enc_le"].match(l)
+        if m:
+            si, assign, chain, fi = int(m.group(1)), m.group(2) == "=", m.group(3), int(m.group(4))
+            k, mask = sh(m.group(5), m.group(6)), int(m.group(7))
+            if chain not in cells or si >= nbytes:
+                return None
+            val, size = cells[chain]
+            if fi >= size:
+                return None
+            byte = (val >> (8 * (size - 1 - fi))) & 0xFF  # big-endian cell
+            x = ((byte >> k) if k >= 0 else (byte << -k)) & mask & 0xFF
+        else:
+            m = RE["c_enc_be"].match(l)
+            if not m:
+                return None
+            si, assign, utype, chain = int(m.group(1)), m.group(2) == "=", m.group(3).strip(), m.group(4)
+            k, mask = sh(m.group(5), m.group(6)), int(m.group(7))
+            if chain not in cells or utype not in UTYPE_BITS or si >= nbytes:
+                return None
+            val, size = cells[chain]
+            bits = UTYPE_BITS[utype]
+            # conversion of the (sign-extended) cell to the unsigned type
+            sval = val - (1 << (8 * size)) if (val >> (8 * size - 1)) and _is_signed_cell(leaves, chain) else val
+            u = sval & ((1 << bits) - 1)
+            x = ((u >> k) if k >= 0 else (u << -k)) & mask & 0xFF
+        out[si] = x if assign else (out[si] | x)
+    return bytes(out)
+
+
+def _is_signed_cell(leaves: List[Tuple[str, Any]], chain: str) -> bool:
+    for p, t in leaves:
+        if p == chain:
+            return isinstance(t, G.TInt)
+    return False
+
+
 def go_function_bodies(text: str, name: str) -> Dict[str, List[str]]:
     out: Dict[str, List[str]] = {}
     m = re.search(r"^func \(m \*" + re.escape(name) + r"\) Encode\(\) \[\]byte \{\n(.*?)\treturn s\n\}", text, re.S | re.M)
@@ -361,6 +436,28 @@ def check_opmode(run: common.Run, drv: common.Driver, rng: random.Random, sc: R.
                     run.violation(dict(rep, kind="impl-vs-spec", expected_by_spec=spec, observed_impl={"bytes": got}))
                 elif dv != v:
                     run.violation(dict(rep, kind="impl-vs-spec", expected_by_spec={"decode": v}, observed_impl={"decode": dv}))
+        # what the `--endian both` and `--endian big` outputs do in BIG-endian memory (evaluated, see encode_on_big_endian_memory)
+        if not overdriven:
+            for j, (m, v) in enumerate(jobs):
+                spec = ans[2 * j]
+                if "ok" not in spec:
+                    continue
+                cl2: List[Tuple[str, Any]] = []
+                C.leaves(G.TRef(m), "(*m)", cl2)
+                flat: List[int] = []
+                C.flat_values(G.TRef(m), v, flat)
+                for variant, ctext in (("--endian both, BP_BIG_ENDIAN defined", c_both), ("--endian big", c_be)):
+                    lines_be = be_build_lines(ctext, G.c_name(m))
+                    got = encode_on_big_endian_memory(lines_be, cl2, flat, (G.msg_nbits(m) + 7) // 8) if lines_be is not None else None
+                    if got is None:
+                        run.count("be-memory-evaluation:outside-the-subset")
+                        continue
+                    run.count("be-memory-evaluation")
+                    if got.hex() != spec["ok"]:
+                        run.violation({"kind": "impl-vs-spec", "input": {"files": {"main.bitproto": text}, "message": G.c_name(m), "ty": G.msg_ty_json(m),
+                                                                           "val": G.msg_val_json(m, v), "config": variant + " on a big-endian host (statements evaluated with big-endian cells)"},
+                                       "expected_by_spec": spec, "observed_impl": {"bytes": got.hex()},
+                                       "note": "the statements a big-endian build compiles, evaluated with the struct in big-endian memory"})
         for cfg in exec_configs_k:
             try:
                 mod = C.CModule(sc, s, text, base, cflags=cfg.get("cflags", ("-O2",)), optimize=True, endian=cfg["endian"])
@@ -439,12 +536,27 @@ def rows_schema() -> G.Schema:
 
 
 def check_c04(run, drv, rng, sc, n_schemas: int, n_values: int) -> None:
-    check_opmode(run, drv, rng, sc, n_schemas, n_values, "C04", EXEC_ALL, presets=[huge_schema(), rows_schema()])
+    check_opmode(run, drv, rng, sc, n_schemas, n_values, "C04", EXEC_ALL, presets=[huge_schema(), rows_schema(), mixed_schema()])
     finish_plan(run)
 
 
+def mixed_schema() -> G.Schema:
+    """messages that begin with one-byte fields (directly and through a nested message of one-byte fields) and go on with wide
+    ones: whatever is decided per message about byte order must look at ALL its fields"""
+    flags = G.MsgDef("Flags", False)
+    flags.fields = [G.Field("a", 1, G.TUint(3)), G.Field("b", 2, G.TBool())]
+    small = G.MsgDef("Small", False)
+    small.fields = [G.Field("x", 1, G.TUint(7)), G.Field("y", 2, G.TByte()), G.Field("f", 3, G.TRef(flags))]
+    packet = G.MsgDef("Packet", False)
+    packet.fields = [G.Field("f", 1, G.TRef(flags)), G.Field("seq", 2, G.TUint(32)), G.Field("t", 3, G.TInt(16))]
+    frame = G.MsgDef("Frame", False)
+    frame.fields = [G.Field("k", 1, G.TUint(5)), G.Field("s", 2, G.TRef(small)), G.Field("w", 3, G.TUint(64)), G.Field("fs", 4, G.TArray(G.TRef(flags), 2, False)),
+                    G.Field("v", 5, G.TInt(24))]
+    return G.Schema("mixedcase", [flags, small, packet, frame])
+
+
 def check_c06_opmode(run, drv, rng, sc, n: int) -> None:
-    check_opmode(run, drv, rng, sc, n, 4, "C06", [EXEC_ALL[0], EXEC_ALL[3]], parse=True)
+    check_opmode(run, drv, rng, sc, n, 4, "C06", [EXEC_ALL[0], EXEC_ALL[3]], parse=True, presets=[mixed_schema()])
     finish_plan(run)
 
 
